@@ -166,6 +166,8 @@ class Emitter:
                 return ("opt", self.ty_of_ast(ty.args[0]))
             if name in ("Vec", "VecDeque", "ArrayVec") and ty.args:
                 return ("list", self.ty_of_ast(ty.args[0]))
+            if name == "Box" and ty.args:
+                return self.ty_of_ast(ty.args[0])     # Box<T> is T (ownership is not modelled)
             if name == "Result" and ty.args and self.v.get("result"):
                 # io::Result<T> (vocabulary key `result`): the sum  T + <error type>
                 return ("res", self.ty_of_ast(ty.args[0]))
@@ -874,12 +876,23 @@ class Emitter:
         if k == "ppath":
             return True
         if k == "ptstruct":
+            if self.payload_variant(p) is not None:
+                return all(x.kind in ("pwild", "pident") or (x.kind == "pref" and x.inner.kind in ("pwild", "pident")) for x in p.elems)
             return p.segs[-1] in ("Some", "Ok", "Err") and all(self.pat_is_ctor_like(x, UNKNOWN) for x in p.elems)
         if k == "ptuple":
             return all(self.pat_is_ctor_like(x, UNKNOWN) for x in p.elems)
         if k == "por":
             return all(self.pat_is_ctor_like(x, ty) for x in p.alts)
         return False
+
+    def payload_variant(self, p):
+        """(coq constructor, payload types) when the tuple-struct pattern names a data-carrying enum variant of the vocabulary"""
+        if len(p.segs) < 2:
+            return None
+        en = self.v.get("enums", {}).get(p.segs[-2])
+        if en is None:
+            return None
+        return en.get("payload", {}).get(p.segs[-1])
 
     def coq_pattern(self, p, ty, binds):
         """native Gallina pattern; binds collects (rust name, coq name, type)"""
@@ -902,6 +915,17 @@ class Emitter:
             if en is None or name not in en["variants"]:
                 raise EmitError("pattern path %s" % "::".join(p.segs))
             return en["variants"][name]
+        if k == "ptstruct" and self.payload_variant(p) is not None:
+            # vocabulary enums[..]["payload"]: {variant: (coq constructor, [payload types] | None)};
+            # None = the payload is only ever matched with wildcards, (coq arity given as an int)
+            ctor, ptys = self.payload_variant(p)
+            if isinstance(ptys, int):
+                if not all(x.kind == "pwild" for x in p.elems):
+                    raise EmitError("payload of %s can only be matched with `_`" % ctor)
+                return "(%s %s)" % (ctor, " ".join("_" for _ in range(ptys)))
+            if len(ptys) != len(p.elems):
+                raise EmitError("pattern %s: %d fields, the vocabulary models %d" % (ctor, len(p.elems), len(ptys)))
+            return "(%s %s)" % (ctor, " ".join(self.coq_pattern(x, t, binds) for x, t in zip(p.elems, ptys)))
         if k == "ptstruct":
             name = p.segs[-1]
             inner = ty[1] if ty[0] == "opt" else UNKNOWN
@@ -996,6 +1020,8 @@ class Emitter:
                     out.append("end")
                     return "\n".join(out)
                 return self.join_branches(env1, k, build)
+            if len(comps) == 1 and tys[0][0] == "res":
+                return self.join_branches(env1, k, lambda kk: self.match_result(e, terms[0], tys[0], env1, kk))
             # if-chain
             def build(kk):
                 def arm(j):
@@ -1042,6 +1068,46 @@ class Emitter:
                     ts2.append(n)
             return "".join(pre) + with_scrut(ts2, tys, env1)
         return self.exprs(comps, env, k_sc)
+
+    def match_result(self, e, term, ty, env, kk):
+        """match on an io::Result whose arms carry literals / guards: `match r with inl v => if-chain | inr v => if-chain end`"""
+        errty = ("enum", self.v["result"]["enum"]) if self.v["result"].get("enum") else ("coq", self.v["result"]["err"])
+
+        def side(tag, inner):
+            v = self.fresh("v")
+
+            def arm(j):
+                if j == len(e.arms):
+                    return "None (* no arm matches: unreachable in Rust (exhaustive match) *)"
+                p, g, body = e.arms[j]
+                while p.kind == "pref":
+                    p = p.inner
+                binds = []
+                tests = []
+                if p.kind == "ptstruct" and p.segs[-1] in ("Ok", "Err") and len(p.elems) == 1:
+                    if p.segs[-1] != tag:
+                        return arm(j + 1)
+                    tt = self.pat_test(p.elems[0], v, inner, binds)
+                    if tt is not None:
+                        tests.append(tt)
+                elif p.kind != "pwild":
+                    raise EmitError("pattern %s in a match on a Result" % p.kind)
+                env2 = env
+                for rn, cn, t, mut in binds:
+                    env2 = env2.bind(rn, cn, t, mut)
+                if g is not None:
+                    pg = self.try_pure(g, env2)
+                    if pg is None:
+                        raise EmitError("match guard that can panic")
+                    tests.append(pg[0])
+                bcode = self.expr(body, env2, kk)
+                if not tests:
+                    return bcode
+                return "if %s then\n%s\nelse\n%s" % (" && ".join(tests), ind(bcode), arm(j + 1))
+            return v, arm(0)
+        vo, co = side("Ok", ty[1])
+        ve, ce = side("Err", errty)
+        return "match %s with\n| inl %s =>\n%s\n| inr %s =>\n%s\nend" % (term, vo, ind(co, 4), ve, ind(ce, 4))
 
     # -- calls ---------------------------------------------------------------
     def call_shape(self, shape, self_place, args, env, k):
@@ -1496,13 +1562,22 @@ class Emitter:
         def k_args(ats, _tys, env1):
             cur0 = "(%s %s)" % (ent["new"], " ".join(ats)) if ats else ent["new"]
             cur = self.fresh("it")
+            if ent.get("enter"):
+                # what creating the iterator does to the receiver (extract_next: capture.reset())
+                r0 = self.fresh(env1.get(root).coq.rstrip("0123456789") or root)
+                return "let %s := (%s %s) in\n%s" % (r0, ent["enter"], env1.get(root).coq,
+                                                     k_loop(ats, cur0, cur, env1.rebind(root, r0)))
+            return k_loop(ats, cur0, cur, env1)
+
+        def k_loop(ats, cur0, cur, env1):
             env2 = env1
             stn = []
             for n in st:
                 c = self.fresh(env1.get(n).coq.rstrip("0123456789") or n)
                 stn.append(c)
                 env2 = env2.rebind(n, c)
-            tup = lambda envx, cu: self.tuple_of([cu] + [envx.get(n).coq for n in st])
+            # (a variable of the body that shadows a loop variable must not leak into the loop state)
+            tup = lambda envx, cu: self.tuple_of([cu] + [self.restrict(envx, env2).get(n).coq for n in st])
             nxt, brk = ("LNext", "LBreak") if ret else ("BNext", "BBreak")
             o = self.fresh("o")
             cur1 = self.fresh("it")
@@ -1565,6 +1640,9 @@ class Emitter:
 
     def while_like(self, cond, bodyblk, env, k):
         fuel = self.loop_fuel()
+        if callable(fuel):
+            fuel = fuel(env)      # a fuel expression over the variables' current Coq names
+        rs = bool(self.v.get("loop_ret_state"))   # opt-in: a `return` inside the loop carries the loop variables
         probe = N("block", stmts=[N("expr", e=cond, semi=True, attrs=[])] if cond is not None and cond.kind != "letcond" else
                   ([N("expr", e=cond.e, semi=True, attrs=[])] if cond is not None else []), tail=bodyblk)
         st = self.assigned(probe, env)
@@ -1581,7 +1659,7 @@ class Emitter:
         old = self.ctl
         oldpm = self.pure_mode
         self.pure_mode = 0
-        self.ctl = Ctl((lambda envx, t, ty: "Some (LRet %s)" % t) if ret else old.ret,
+        self.ctl = Ctl(((lambda envx, t, ty: "Some (LRet (%s, %s))" % (tup(envx), t)) if rs else (lambda envx, t, ty: "Some (LRet %s)" % t)) if ret else old.ret,
                        lambda envx: "Some (%s %s)" % (brk, tup(envx)), lambda envx: "Some (%s %s)" % (nxt, tup(envx)))
         try:
             run_body = lambda envb: self.expr(bodyblk, envb, lambda _t, _ty, envx: "Some (%s %s)" % (nxt, tup(envx)))
@@ -1605,6 +1683,11 @@ class Emitter:
         r = self.fresh("lr")
         s2 = self.fresh("st")
         v = self.fresh("rv")
+        if rs:
+            s3 = self.fresh("st")
+            return "%s <- while_fuel %s %s %s ;;\nmatch %s with\n| inl %s =>\n%s\n| inr (%s, %s) =>\n%s\nend" % (
+                r, fuel, fterm, init, r, s2, ind(self.unpack_state(st, s2, env, lambda env4: k("tt", UNIT, env4)), 4),
+                s3, v, ind(self.unpack_state(st, s3, env, lambda env4: self.ctl.ret(env4, v, UNKNOWN)), 4))
         return "%s <- while_fuel %s %s %s ;;\nmatch %s with\n| inl %s =>\n%s\n| inr %s =>\n%s\nend" % (
             r, fuel, fterm, init, r, s2, ind(self.unpack_state(st, s2, env, lambda env4: k("tt", UNIT, env4)), 4),
             v, ind(self.ctl.ret(env, v, UNKNOWN), 4))
